@@ -23,7 +23,7 @@ func VerifTokenStream(N int) {
 		if kind == Number {
 			val = "7"
 		}
-		ch <- Token{Kind: kind, Value: val, EndAt: 0}
+		ch <- Token{Kind: kind, Value: val}
 	}
 	close(ch)
 	p := &parser{lex: &lexer{input: "", tokens: ch}, pos: 0}
